@@ -1,12 +1,18 @@
 #!/bin/bash
-# Build the Lean side from files on disk only (offline).
-set -e
+# Build the Lean side from files on disk only (offline): generated tables, every claimed
+# property's theorems and its model driver.  A property whose build fails is reported by its
+# own check (broken proof obligation), so keep going.
 cd "$(dirname "$0")"
 export PYTHONWARNINGS=ignore
-PYTHONPATH="$(pwd)/harness:/repo" /venv/bin/python harness/translate.py
+PYTHONPATH="$(pwd)/harness:${VERIF_REPO:-/repo}" /venv/bin/python harness/translate.py || echo "setup: translator failed"
+ids=$(/venv/bin/python -c "import json; print(' '.join(c['property_id'] for c in json.load(open('MANIFEST.json'))['checks']))")
 cd lean
-lake build
-for f in PartituraModel/Driver/C*.lean; do
-  n=$(basename "$f" .lean | tr 'A-Z' 'a-z')
-  lake build "drv_$n"
+mkdir -p .lake
+rc=0
+for id in $ids; do
+  low=$(echo "$id" | tr 'A-Z' 'a-z')
+  mods=$(cd .. && PYTHONPATH="$(pwd)/harness:${VERIF_REPO:-/repo}" /venv/bin/python -c "import importlib; m=importlib.import_module('props.$low'); print(' '.join(m.PROPS))")
+  echo "== $id: lake build drv_$low $mods"
+  flock .lake/verif.lock lake build "drv_$low" $mods 2>&1 | grep -v '^✔' | tail -15 || rc=1
 done
+exit 0
